@@ -191,6 +191,13 @@ func DrawProxyParams(ch *sim.Choices, prop string) ProxyParams {
 		p.DrainMs = pickFrom(ch, "params", "drain", []int{2000, 5000, 15000})
 		p.NConns = 1 + ch.Pick("params", "nconns11", 4)
 	}
+	if p.Proto == "tars" || p.Proto == "dubbo-thrift" {
+		// MOSN's tars codec cannot build replies of its own (Hijack / Reply "not support"): a request that
+		// fails inside MOSN gets no answer at all. Observed, recorded in DESIGN.md; this arm keeps to
+		// what the codec supports: plain request/response traffic (and malformed input for C08).
+		p.Faults, p.NoRefuse, p.Oneway, p.Filters, p.UpGarbage, p.IdleCloses = false, true, false, nil, false, 0
+		p.GlobalMs, p.TryMs, p.NumRetries, p.RetryOn, p.MaxConns, p.MaxReqs, p.MaxPending, p.ClientLeaves, p.ProtoTimeout = 0, 0, 0, false, 0, 0, 0, false, false
+	}
 	for _, x := range p.Protos {
 		if x == "dubbo" {
 			// MOSN's dubbo codec has no one-way stream type (a request without the two-way flag is proxied as
@@ -222,8 +229,10 @@ func protoChoices(prop string) []string {
 		return []string{"http1", "boltpp", "bolt"}
 	case "C11":
 		return []string{"bolt", "http1", "boltpp", "boltv2", "http2"}
-	case "C08", "C01", "C07":
-		return []string{"bolt", "http1", "boltpp", "boltv2", "dubbo", "http2"}
+	case "C01":
+		return []string{"bolt", "http1", "boltpp", "boltv2", "dubbo", "http2", "tars", "dubbo-thrift", "tcp"}
+	case "C08", "C07":
+		return []string{"bolt", "http1", "boltpp", "boltv2", "dubbo", "http2", "tars", "dubbo-thrift"}
 	case "C02", "C03", "C10":
 		return []string{"bolt", "http1", "boltpp", "boltv2", "dubbo"}
 	}
@@ -359,6 +368,9 @@ func (w *Proxy) replyBuilder(u *peers.XUpstream, r *peers.ReqRec, up *peers.UpRe
 		f.Status = 2 // server exception, carries the token nevertheless
 		if u.Codec.Name() == "dubbo" {
 			f.Status = 70 // SERVICE_ERROR
+		}
+		if u.Codec.Name() == "dubbo-thrift" {
+			f.Status = 3 // thrift EXCEPTION
 		}
 	}
 	f.Headers = []peers.KV{{K: "tok", V: r.Token}, {K: "host", V: u.Host}, {K: "att", V: fmt.Sprint(up.Att)}}
@@ -1010,8 +1022,11 @@ func (a *autoUp) OnData(c *sim.Conn, b []byte) {
 			u := w.newH2Upstream(a.host)
 			u.Start(c)
 			a.impl = u
-		case b[0] == 1 || b[0] == 2 || b[0] == 0xda:
+		case b[0] == 1 || b[0] == 2 || b[0] == 0xda || (b[0] == 0 && (w.P.Proto == "tars" || w.P.Proto == "dubbo-thrift")):
 			proto := "bolt"
+			if b[0] == 0 {
+				proto = w.P.Proto
+			}
 			if b[0] == 2 {
 				proto = "boltv2"
 			}
@@ -1110,6 +1125,10 @@ func (w *Proxy) setupGarbage() {
 			valid = peers.CodecFor(proto).Build(f)
 			g.Payload, g.Kind = peers.Corrupt(proto, valid, ch)
 		}
+		if (proto == "bolt" || proto == ppName) && len(g.Payload) > 1 && g.Payload[0] == 1 && g.Payload[1] == 2 ||
+			proto == "boltv2" && len(g.Payload) > 2 && g.Payload[0] == 2 && g.Payload[2] == 2 {
+			s.Faults["w:oneway"]++ // the corruption turned the frame into a one-way request
+		}
 		g.Kind = proto + " " + g.Kind
 		g.FinAfter = ch.Chance("work", "gfin", 1, 3)
 		w.garbage = append(w.garbage, g)
@@ -1143,7 +1162,10 @@ func (w *Proxy) drawVerdicts(r *peers.ReqRec) string {
 			continue
 		}
 		v := pickFrom(ch, "work", "fverdictkind", []string{"hijack", "stop", "terminate", "hijackbody", "direct", "rematch", "rechoose", "hijack"})
-		if v == "rematch" && f.Phase != 1 || v == "rechoose" && f.Phase != 2 {
+		if v == "rematch" && f.Phase == 2 {
+			// a re-match requested in the last receive phase: the proxy re-matches "only at the AfterRoute
+			// phase", the pass of the requesting filter's phase ends there and the request goes on
+		} else if v == "rematch" && f.Phase != 1 || v == "rechoose" && f.Phase != 2 {
 			v = "continue" // only meaningful in their own phase
 		}
 		if v != "continue" {
